@@ -20,7 +20,7 @@ struct HamiltonianPart { char opaque; };
 struct DensityMatrixPart { char opaque; };
 struct SusceptibilityPart { char opaque; };
 struct Hamiltonian { long nblocks; struct HamiltonianPart ghost_parts[1]; };
-struct DensityMatrix { long nblocks; struct DensityMatrixPart ghost_parts[1]; };
+struct DensityMatrix { double beta; long nblocks; struct DensityMatrixPart ghost_parts[1]; };
 struct StatesClassification;
 //@struct Pomerol::FieldOperator only=Status,LeftRightBlocks
 //@extra
@@ -189,7 +189,7 @@ __CPROVER_loop_invariant(GHOST_MATCH
 __CPROVER_decreases((SAL->n - Aiter.pos) + (SBR->n - Biter.pos))
 //@end
 
-//@harness h_Susc_prepare enforce=Susceptibility_prepare props=C14,C19 min_obl=500 timeout=600 reach=4
+//@harness h_Susc_prepare enforce=Susceptibility_prepare props=C14,C19 min_obl=2300 timeout=300 reach=4
 void h_Susc_prepare(void)
 {
   struct Susceptibility *chi;
@@ -356,10 +356,10 @@ __CPROVER_ensures(!VERIF_thrown ==> (self->SubtractDisconnected && C_SAME(self->
 __CPROVER_ensures(VERIF_thrown ==> (!self->SubtractDisconnected == !__CPROVER_old(self->SubtractDisconnected) && C_SAME(self->ave_A, __CPROVER_old(self->ave_A)) && C_SAME(self->ave_B, __CPROVER_old(self->ave_B))))
 //@end
 
-//@harness h_Susc_subtract_values enforce=Susceptibility_subtractDisconnected2c props=C14 min_obl=10 timeout=120 reach=1
+//@harness h_Susc_subtract_values enforce=Susceptibility_subtractDisconnected2c props=C14 min_obl=70 timeout=120 reach=1
 void h_Susc_subtract_values(void) { struct Susceptibility *chi; cplx a, b; Susceptibility_subtractDisconnected2c(chi, a, b); REACH("exit"); }
 
-//@harness h_Susc_subtract_EA enforce=Susceptibility_subtractDisconnected2e props=C14 min_obl=50 timeout=120 reach=2
+//@harness h_Susc_subtract_EA enforce=Susceptibility_subtractDisconnected2e props=C14 min_obl=265 timeout=120 reach=2
 void h_Susc_subtract_EA(void)
 {
   struct Susceptibility *chi; struct EnsembleAverage *ea, *eb;
@@ -367,7 +367,7 @@ void h_Susc_subtract_EA(void)
   if (VERIF_thrown) REACH("thrown"); else REACH("exit");
 }
 
-//@harness h_Susc_subtract_own enforce=Susceptibility_subtractDisconnected0 props=C14 min_obl=50 timeout=120 reach=2
+//@harness h_Susc_subtract_own enforce=Susceptibility_subtractDisconnected0 props=C14 min_obl=258 timeout=120 reach=2
 void h_Susc_subtract_own(void)
 {
   struct Susceptibility *chi;
@@ -375,11 +375,85 @@ void h_Susc_subtract_own(void)
   if (VERIF_thrown) REACH("thrown"); else REACH("exit");
 }
 
-//@harness h_Susc_call_z enforce=Susceptibility_call_z props=C14 min_obl=100 timeout=300 reach=2
+/* ---- constructor: establishes the state prepare() starts from (Status = Constructed, Vanishing, no parts), no subtraction,
+ * beta of the density matrix, and stores each argument in the member of the same name. */
+//@struct Pomerol::Thermal
+//@tu src/pomerol/Thermal.cpp
+//@global I
+//@function Pomerol::Thermal::Thermal(double) as Thermal_ctor1x
+//@end
+/* the base-class initialiser `Thermal(DM.beta)` is printed as the in-place form Thermal_ctor1(base, beta) */
+#define Thermal_ctor1(base_, beta_) Thermal_init1x((base_), (beta_))
+//@tu src/pomerol/Susceptibility.cpp
+/* TRUSTED: ComputableObject() sets Status = Constructed (ComputableObject.h); the base sub-object is flattened into the C struct,
+ * so the model writes the member of the object under construction */
+#define ComputableObject_ctor0(base_) ((void)(self->Status = Constructed))
+static inline PartList PartList_ctor0(void) { PartList l; l.n = 0; l.last = 0; l.items = 0; l.gidx = -1; l.last_pos = -1; return l; }
+//@function Pomerol::Susceptibility::Susceptibility(Pomerol::StatesClassification const&, Pomerol::Hamiltonian const&, Pomerol::QuadraticOperator const&, Pomerol::QuadraticOperator const&, Pomerol::DensityMatrix const&) as Susceptibility_ctor5
+//@contract
+__CPROVER_requires(__CPROVER_is_fresh(self, sizeof(*self)) && __CPROVER_is_fresh(H, sizeof(*H)) && __CPROVER_is_fresh(A, sizeof(*A)) && __CPROVER_is_fresh(B, sizeof(*B)) && __CPROVER_is_fresh(DM, sizeof(*DM)))
+__CPROVER_assigns(*self)
+__CPROVER_ensures(self->Status == Constructed && self->Vanishing && self->parts.n == 0 && !self->SubtractDisconnected)
+__CPROVER_ensures(BITS(self->ave_A.re) == 0 && BITS(self->ave_A.im) == 0 && BITS(self->ave_B.re) == 0 && BITS(self->ave_B.im) == 0)
+__CPROVER_ensures(D_SAME(self->beta, DM->beta) && C_SAME(self->MatsubaraSpacing, op_div_cplx_double(op_mul_cplx_double(I, 3.14159265358979323846), DM->beta)))
+__CPROVER_ensures(self->S == S && self->H.nblocks == H->nblocks && self->DM.nblocks == DM->nblocks && self->A.ghost_id == A->ghost_id && self->B.ghost_id == B->ghost_id)
+//@end
+
+//@harness h_Susc_ctor enforce=Susceptibility_init5 props=C14 min_obl=275 timeout=120 reach=1
+void h_Susc_ctor(void)
+{
+  struct Susceptibility *chi; struct StatesClassification *S; struct Hamiltonian *H; struct FieldOperator *A, *B; struct DensityMatrix *DM;
+  Susceptibility_init5(chi, S, H, A, B, DM);
+  REACH("exit");
+}
+
+//@harness h_Susc_call_z enforce=Susceptibility_call_z props=C14 min_obl=490 timeout=120 reach=2
 void h_Susc_call_z(void) { struct Susceptibility *chi; cplx z; Susceptibility_call_z(chi, z); REACH("exit"); }
 
-//@harness h_Susc_call_n enforce=Susceptibility_call_n props=C14 min_obl=100 timeout=300 reach=2
+//@harness h_Susc_call_n enforce=Susceptibility_call_n props=C14 min_obl=505 timeout=120 reach=2
 void h_Susc_call_n(void) { struct Susceptibility *chi; long n; Susceptibility_call_n(chi, n); REACH("exit"); }
 
-//@harness h_Susc_of_tau enforce=Susceptibility_of_tau props=C14 min_obl=100 timeout=300 reach=2
+//@harness h_Susc_of_tau enforce=Susceptibility_of_tau props=C14 min_obl=475 timeout=120 reach=2
 void h_Susc_of_tau(void) { struct Susceptibility *chi; double tau; Susceptibility_of_tau(chi, tau); REACH("exit"); }
+
+/* =====================================================================================================================
+ * WHAT IS PROVED (for all inputs satisfying the stated type invariants), WHAT IS NOT
+ *
+ * h_Susc_prepare (Susceptibility::prepare, C14 + C19), bimap model stubs/bimap.h (assumptions B1-B3 there):
+ *   safety (iterators dereferenced / incremented only before end(); block numbers handed to H.getPart / DM.getPart / DM.isRetained
+ *     inside parts[]; getPartFromLeftIndex / getPartFromRightIndex called with an existing left / right block), termination;
+ *   Status >= Prepared on entry: nothing changes;  an operator that is not prepared: exStatusMismatch, nothing created;
+ *   soundness (monitor of `new SusceptibilityPart(...)`, every call): the iterators are on relations <l|A|r> and <r|B|l>; l or r is
+ *     retained; arguments = (part of A with left block l, part of B with right block l, H(r), H(l), DM(r), DM(l)), i.e. inner = r,
+ *     outer = l as documented in SusceptibilityPart.h; the created part is what is pushed;
+ *   completeness + uniqueness + C19 (ghost pair = ONE arbitrary relation of A.left and ONE of B.right): exactly one part iff the pair
+ *     matches and (retained(l) || retained(r)) -- a part is skipped only when both blocks of its stripe are discarded; no part for a
+ *     non-matching pair;  number of list elements = number of parts created;  Vanishing <=> no part;  Status = Prepared.
+ *   retained() is an opaque oracle of the block number.  Part handles are opaque (never dereferenced).
+ * h_Susc_ctor: Status = Constructed, Vanishing, no parts, no subtraction, averages +0, beta / MatsubaraSpacing = I*pi/beta of DM
+ *   (Thermal::Thermal(double) extracted), arguments stored in the members of the same name.
+ * h_Susc_call_z / h_Susc_call_n / h_Susc_of_tau: result = S [ - (ave_A*ave_B)*beta iff SubtractDisconnected and |z| < 1e-15 ]
+ *   resp. S [ - ave_A*ave_B iff SubtractDisconnected ] where S is a MODEL: 0, then S := S + part_k(arg) at every evaluation of a part
+ *   (monitor; the accumulator is bit-equal to the model at every loop head).  The model does not depend on SubtractDisconnected /
+ *   ave_A / ave_B, so "value with subtraction - value without" is exactly the bracket.  Every part is evaluated at the function's own
+ *   argument (for operator()(long n): z = MatsubaraSpacing*(double)(2n), |n| < 2^62 LIMIT); an arbitrary part (ghost position) is
+ *   evaluated exactly once, none if Vanishing.  The value of one part is an opaque function (contracts in suscpart.c).
+ * h_Susc_subtract_values / _EA / _own: all three overloads set SubtractDisconnected and (ave_A, ave_B) = the given values / the results
+ *   of the two EnsembleAverage objects after prepare() (A first) / <A>, <B> of the susceptibility's own operators with its own S, H, DM;
+ *   if an average cannot be prepared (operator not prepared) the exception leaves the three members unchanged.
+ *   EnsembleAverage is a contract stub (TRUSTED: prepare() idempotent, result = opaque <Op>); EnsembleAverage.cpp is not under contract here.
+ * NOT covered: Susceptibility::compute (status logic + one compute() per part), copy constructor, destructor.
+ *
+ * MUTANTS (scratch copy of /repo, re-extracted; obligation that failed)
+ *   prepare: drop `|| isRetained(Aright)`   -> Susceptibility_prepare.loop_invariant_step.5 (ghost pair not created)
+ *            H.getPart(Aleft),H.getPart(Aright) swapped -> SusceptibilityPart_new6.assertion.6 (inner = r, outer = l)
+ *            `<=` -> `<` in the A advance      -> loop_invariant_step.4/.5 (equivalent walk, but not the lock-step one the invariant describes)
+ *            match test without Aright == Bleft -> SusceptibilityPart_new6.assertion.2
+ *            parts.size() > 1                  -> Susceptibility_prepare.postcondition.6 (Vanishing <=> no part)
+ *            B.getPartFromLeftIndex(Bleft)     -> FieldOperator_getPartFromLeftIndex.assertion.1, SusceptibilityPart_new6.assertion.5
+ *   ctor:    Vanishing(false) -> postcondition.1;  A(B),B(A) -> postcondition.4
+ *   call_z:  subtraction at every z -> postcondition.3;  `-=` -> `+=` -> postcondition.3;  if(Vanishing) -> postcondition.1/.2
+ *   call_n:  2n+1 -> SusceptibilityPart_call.assertion.2 (every part is evaluated at z), postcondition.2
+ *   of_tau:  extra *beta -> postcondition.3;  `Value -= part` -> accumulator != model (loop invariant)
+ *   subtract: ave_A = ave_B -> 2c.postcondition.1;  results swapped -> 2e.postcondition.2;  EA_B built from A -> EnsembleAverage_ctor4.assertion.2, 0.postcondition.1/.2
+ */
